@@ -70,18 +70,20 @@ ModelGeom(m, tv) ==
         edges |-> [i \in 1..NEdges(tv) |-> DgEdge(m, tv[i], tv[Succ(tv, i)])]]
 
 IsHoro(tv) == Len(tv) = 2 /\ DgIdeal(tv[1]) /\ ~DgIdeal(tv[2])
-HoroGeom(m, tv) ==
+HoroGeom(m, tv, w) ==
   IF m = "klein" \/ ~IsHoro(tv) \/ ~(DgDefined(m, tv[2]) /\ DgInView(m, tv[2])) THEN [ok |-> FALSE]
   ELSE LET h == DgHoro(m, tv[1], tv[2])
        \* a horosphere of radius >= Threshold is replaced by a horizontal line by the drawing code: outside the domain
-       IN IF h.kind = "circle" /\ ~RLess(h.r, RInt(Threshold)) THEN [ok |-> FALSE] ELSE [ok |-> TRUE, h |-> h]
+       \* a centre that is moved to infinity by a non-trivial transformation is at infinity only up to rounding
+       IN IF (h.kind = "circle" /\ ~RLess(h.r, RInt(Threshold))) \/ (h.kind = "flat" /\ w # <<>>) THEN [ok |-> FALSE]
+          ELSE [ok |-> TRUE, h |-> h]
 
 Scene(w, vs) ==
   LET tv == [i \in 1..Len(vs) |-> DgAct(DgWordVal(w), vs[i])] IN
   [word |-> w, verts |-> vs, tv |-> tv, ideal |-> [i \in 1..Len(vs) |-> DgIdeal(tv[i])],
    T |-> DgWordVal(w),
    geom |-> [m \in DrawModels |-> ModelGeom(m, tv)],
-   horo |-> [m \in DrawModels |-> HoroGeom(m, tv)]]
+   horo |-> [m \in DrawModels |-> HoroGeom(m, tv, w)]]
 
 \* emitted once per scene (an INVARIANT: evaluated on every distinct state, and in simulation on the visited states)
 EmitScene == verts = <<>> \/ PrintT("EMIT " \o ToJson(Scene(word, verts)))
